@@ -57,9 +57,15 @@ class Unit:
             except (assemble.LostAnchor, rtok_error()) as e:
                 self._lost_anchor(ctx, p, str(e))
                 continue
-            missing = [k for k in list(plan) + list(consts) if k not in asm.seen_keys]
+            allc = dict(plan)
+            allc.update(consts)
+            missing = [k for k in allc if k not in asm.seen_keys and not getattr(allc[k], 'optional', False)]
             if missing:
                 self._lost_anchor(ctx, p, 'generated function(s) not found: %s' % (missing,))
+                continue
+            unplanned = self.unplanned_overrides(ctx, p, asm)
+            if unplanned:
+                self._lost_anchor(ctx, p, 'generated function(s) outside the contract plan that change what the property relies on: %s' % ', '.join(unplanned))
                 continue
             text = self.verus_text(ctx, p, pre, asm, lemmas)
             expected = []
@@ -79,6 +85,11 @@ class Unit:
                 if s:
                     ctx.samples.append(s)
         return mods
+
+    def unplanned_overrides(self, ctx, p, asm):
+        """Names of generated functions that are not under contract although the property depends on them (e.g. an override of an
+        Iterator default method, which would invalidate 'std default methods run on top of the verified primitives')."""
+        return []
 
     def _lost_anchor(self, ctx, p, why):
         """The expansion no longer has the shape the contracts are keyed on (a refactored template): never a violation.  The program's
